@@ -31,22 +31,54 @@ type c12Env struct {
 	EnvChoices
 }
 
-// c12Prefix: a header truncated to cut bytes must be rejected by both readers.
+// c12Prefix: a header truncated to cut bytes must be rejected by both readers, under both settings of the span cache;
+// a bytes reader over the caller's truncated frame must leave the caller's memory out of the shared pool.
 func c12Prefix(c *mc.Ctx, nl, cut int) {
 	full := ref.MessageBegin(nil, c12Name(nl), 1, 7)
-	c.Eval(2)
-	p := full[:cut]
-	if _, _, _, _, err := thrift.Binary.ReadMessageBegin(p); err == nil {
-		c.Violate("prefix", "C12|prefix|Binary.ReadMessageBegin|accepted", fmt.Sprintf("Binary.ReadMessageBegin accepted a header truncated to %d of %d bytes", cut, len(full)), c12Env{NameLen: nl, Cut: cut})
-	}
-	for _, env := range []EnvCfg{{}, {Chunk: 1, ErrWithLast: true}} {
-		r := bufiox.NewDefaultReader(NewEnvReader(p, env))
-		b := thrift.NewBufferReader(r)
-		if _, _, _, err := b.ReadMessageBegin(); err == nil {
-			c.Violate("prefix", "C12|prefix|BufferReader.ReadMessageBegin|accepted", fmt.Sprintf("BufferReader.ReadMessageBegin accepted a header truncated to %d of %d bytes", cut, len(full)), c12Env{NameLen: nl, Cut: cut})
+	defer thrift.SetSpanCache(false)
+	for _, span := range []bool{false, true} {
+		thrift.SetSpanCache(span)
+		c.Eval(2)
+		p := full[:cut]
+		if _, _, _, _, err := thrift.Binary.ReadMessageBegin(p); err == nil {
+			c.Violate("prefix", "C12|prefix|Binary.ReadMessageBegin|accepted", fmt.Sprintf("Binary.ReadMessageBegin accepted a header truncated to %d of %d bytes (span cache %v)", cut, len(full), span), c12Env{NameLen: nl, Cut: cut})
 		}
+		for _, env := range []EnvCfg{{}, {Chunk: 1, ErrWithLast: true}} {
+			r := bufiox.NewDefaultReader(NewEnvReader(p, env))
+			b := thrift.NewBufferReader(r)
+			if _, _, _, err := b.ReadMessageBegin(); err == nil {
+				c.Violate("prefix", "C12|prefix|BufferReader.ReadMessageBegin|accepted", fmt.Sprintf("BufferReader.ReadMessageBegin accepted a header truncated to %d of %d bytes (span cache %v)", cut, len(full), span), c12Env{NameLen: nl, Cut: cut})
+			}
+			b.Recycle()
+			r.Release(nil)
+		}
+		// the caller's own chunk (capacity a power of two, as network buffers are), truncated frame, Release, then an
+		// unrelated writer: the header it writes must come out intact and the chunk must not have entered the pool
+		mcache.VerifReset()
+		vsync.Reset()
+		pc := 8
+		for pc < cut {
+			pc <<= 1
+		}
+		chunk := make([]byte, pc)
+		copy(chunk, p)
+		r := bufiox.NewBytesReader(chunk[:cut:pc])
+		b := thrift.NewBufferReader(r)
+		_, _, _, err := b.ReadMessageBegin()
 		b.Recycle()
 		r.Release(nil)
+		sink := &EnvWriter{}
+		dw := bufiox.NewDefaultWriter(sink)
+		bw := thrift.NewBufferWriter(dw)
+		bw.WriteMessageBegin("after", 1, 9)
+		for i := range chunk {
+			chunk[i] = 0xEE // the owner reuses its chunk
+		}
+		dw.Flush()
+		bw.Recycle()
+		if a := mcache.VerifTakeAudit(); len(a) > 0 || err == nil || !bytes.Equal(sink.Got, ref.MessageBegin(nil, "after", 1, 9)) {
+			c.Violate("prefix", "C12|prefix|bytes-reader", fmt.Sprintf("a bytes reader over the caller's power-of-two-sized chunk holding a header truncated to %d of %d bytes: err=%v; pool audit %v; an unrelated writer's next header came out as %s", cut, len(full), err, a, mc.Hex(sink.Got)), c12Env{NameLen: nl, Cut: cut})
+		}
 	}
 }
 
@@ -140,6 +172,35 @@ func c12Envelope(c *mc.Ctx, k c12Env, withStream bool) {
 				return
 			}
 		}
+		if withStream && k.NameLen <= 300 {
+			// a long-lived connection: 13 headers through ONE buffered writer (Flush after each) and ONE buffered reader
+			// (Release after each) - more cycles than any internal window of recent sizes
+			lsink := &EnvWriter{}
+			ldw := bufiox.NewDefaultWriter(lsink)
+			lbw := thrift.NewBufferWriter(ldw)
+			var all []byte
+			for i := 0; i < 13; i++ {
+				lbw.WriteMessageBegin(name, k.Type, k.Seq+int32(i))
+				ldw.Flush()
+				all = ref.MessageBegin(all, name, k.Type, k.Seq+int32(i))
+			}
+			lbw.Recycle()
+			if !bytes.Equal(lsink.Got, all) {
+				bad("long-lived-writer", "13 headers written through one buffered writer (Flush after each) delivered %d bytes, want %d; first difference at %d", len(lsink.Got), len(all), firstDiff(lsink.Got, all))
+				return
+			}
+			lr := bufiox.NewDefaultReader(NewEnvReader(all, k.Env))
+			lbr := thrift.NewBufferReader(lr)
+			for i := 0; i < 13; i++ {
+				gn, gt, gs, err := lbr.ReadMessageBegin()
+				if err != nil || gn != name || gt != k.Type&0xffff || gs != k.Seq+int32(i) {
+					bad("long-lived-reader", "header %d of 13 read through one buffered reader (Release after each): (name eq=%v, type %d, seq %d, %v)", i+1, gn == name, gt, gs, err)
+					return
+				}
+				lr.Release(nil)
+			}
+			lbr.Recycle()
+		}
 		in := append(append([]byte{}, want...), 0x7e)
 		gn, gt, gs, l, err := B.ReadMessageBegin(in)
 		if err != nil || gn != name || gt != k.Type&0xffff || gs != k.Seq || l != len(want) {
@@ -221,6 +282,11 @@ func c12Marshal(c *mc.Ctx, k c12Msg) {
 		if k.Unk { // an EXCEPTION message as a newer peer would send it: built by the reference, with unknown fields
 			st := exceptionStruct(k.Pay.S[0], k.Pay.I, ref.Field{ID: 3, V: strV("extra")}, ref.Field{ID: 4, V: ref.Value{T: ref.LIST, Elem: ref.I32, L: []ref.Value{{T: ref.I32, I: 1}}}})
 			st.F[0], st.F[2] = st.F[2], st.F[0]
+			// extension fields a newer peer may add: ids that agree with the known ids 1/2 in their low byte or low 15 bits
+			for _, hi := range []int16{0x100, 0x200, 0x4000, -0x8000, 0x7f00} {
+				st.F = append(st.F, ref.Field{ID: hi | 1, V: strV("not the text")}, ref.Field{ID: hi | 2, V: ref.Value{T: ref.I32, I: 424242}},
+					ref.Field{ID: hi | 1, V: ref.Value{T: ref.I32, I: 7}}, ref.Field{ID: hi | 2, V: strV("x")})
+			}
 			b = ref.Encode(ref.MessageBegin(nil, k.Method, k.Type, k.Seq), &st)
 		} else {
 			b, err = thrift.MarshalFastMsg(k.Method, k.Type, k.Seq, c11Codec(k.Pay))
